@@ -325,7 +325,9 @@ def check_e2e(ti, tj, di, ni):
             # one value per requested time (requests closer than the tolerance 1e-6 count once)
             req = sorted(set(round(float(x), 6) for x in want))
             got = sorted(set(round(float(x), 6) for x in times))
-            if req != got:
+            if set(req) - set(got):
+                out.append((f"C20:requested-time-not-stored:{o._base_tag}", f"requested {sorted(want)}, stored {times}"))
+            elif req != got:  # only additional times
                 out.append((f"C20:result-times-differ-from-request:{o._base_tag}", f"requested {sorted(want)}, stored {times}"))
         else:
             if len(times) < T // 2:
@@ -361,6 +363,51 @@ def check_e2e(ti, tj, di, ni):
                 kind = "mixed" if st.isoper else "pure"
                 out.append((f"C20:stored-{o._base_tag}-differs-from-definition:{kind}", f"t={t}: {val} vs {exp}"))
     return out + [("@e2e", "")]
+
+
+
+# ---- evaluation times x every sequence duration (float conversion of relative times) ----------------------------------
+SWEEP_TIMES = [(0.1, 0.4, 0.75), (0.2, 0.6, 1.0), (0.75, 1.0), (1 / 3, 2 / 3), (0.3, 0.7, 0.9), (0.05, 0.95)]
+
+
+def tsweep_cases(tier):
+    hi = 330 if tier == "quick" else 1500
+    return [("tsweep", T, li) for T in range(16, hi) for li in range(len(SWEEP_TIMES))]
+
+
+def check_tsweep(T, li):
+    """One value per requested evaluation time, for every duration: requested lists are used both as the default times and
+    as an observable's own times (so that no additional default time can hide a missing one)."""
+    from pulser import Pulse, Register, Sequence
+    from pulser.backend import Occupation, StateResult
+    from pulser_simulation import QutipBackendV2, QutipConfig
+
+    from mc.worlds import World
+
+    dev = World(dict(name="e2e")).device
+    seq = Sequence(Register({"q0": (0.0, 0.0)}), dev)
+    seq.declare_channel("g", "rydberg_global")
+    seq.add(Pulse.ConstantPulse(T, 3.0, 0.5, 0.0), "g")
+    want = SWEEP_TIMES[li]
+    obs = [StateResult(), Occupation(evaluation_times=want)]
+    try:
+        res = QutipBackendV2(seq, config=QutipConfig(observables=obs, default_evaluation_times=want)).run()
+    except Exception as e:
+        return [(f"C20:run-raises:{type(e).__name__}", f"T={T}, times {want}: {e}"[:200])]
+    out = []
+    req = sorted(set(round(float(x), 6) for x in want))
+    for o in obs:
+        times = res.get_result_times(o)
+        got = sorted(set(round(float(x), 6) for x in times))
+        if set(req) - set(got):
+            out.append((f"C20:requested-time-not-stored:{o._base_tag}", f"T={T}: requested {list(want)}, stored {times}"))
+        elif len(times) != len(req):
+            out.append((f"C20:time-stored-twice:{o._base_tag}", f"T={T}: requested {list(want)}, stored {times}"))
+        if times != sorted(times):
+            out.append((f"C20:result-times-not-ascending:{o._base_tag}", f"T={T}: {times}"))
+        if len(getattr(res, o.tag)) != len(times):
+            out.append((f"C20:results-length:{o._base_tag}", f"T={T}"))
+    return out + [("@tsweep", "")]
 
 
 # ---- BitStrings observable follows the measurement probabilities (RNG tape) -------------------------------------
@@ -446,12 +493,14 @@ def worker(case):
             return check_e2e(*case[1:])
         if k == "bits":
             return check_bits(*case[1:])
+        if k == "tsweep":
+            return check_tsweep(*case[1:])
     return []
 
 
 def run(tier, seed):
     res = Result("exploration")
-    cases = obs_cases(tier) + repr_cases(tier) + e2e_cases(tier) + bit_cases(tier)
+    cases = obs_cases(tier) + repr_cases(tier) + e2e_cases(tier) + bit_cases(tier) + tsweep_cases(tier)
     outs = gridx.run(worker, cases, chunksize=4)
     classes = {}
     for c, r in zip(cases, outs):
@@ -461,14 +510,15 @@ def run(tier, seed):
             else:
                 res.add(Violation(fp, d, {"engine": "grid", "case": repr(c)}))
     res.coverage = dict(
-        evaluations=len(cases), distinct_nontrivial=sum(v for k, v in classes.items() if k in ("@obs", "@oprepr", "@strepr", "@e2e", "@bits")),
+        evaluations=len(cases), distinct_nontrivial=sum(v for k, v in classes.items() if k in ("@obs", "@oprepr", "@strepr", "@e2e", "@bits", "@tsweep")),
         exhaustive=True, outcome_classes=classes,
         rule="states: 8-9 member family (basis states, uniform, signed/complex, entangled, 1/4-3/4 mixture, maximally mixed, diagonal) as "
              "ket and as density matrix x eigenstate sets of 2, 3 and 4 levels x 1-3 qudits x 3 Hamiltonians (two full rank, one rank "
              "one): Occupation, CorrelationMatrix, Energy, EnergySecondMoment, EnergyVariance, Fidelity (vs every pure member), "
              "Expectation (non-Hermitian operator) against numpy trace definitions, operator algebra; 6 operator-representation shapes "
              "and 4 amplitude sets per (levels, qudits) against explicit Kronecker products; end-to-end V2 runs over per-observable "
-             "time lists (incl. unsorted and near-duplicate) x default times x noise; BitStrings under every RNG tape of a menu",
+             "time lists (incl. unsorted and near-duplicate) x default times x noise; BitStrings under every RNG tape of a menu; "
+             "every sequence duration 16..N ns x 6 evaluation-time lists not starting at 0 (one stored value per requested time)",
         samples=[repr(cases[i])[:160] for i in (0, len(cases) // 2, len(cases) - 1)])
     res.assumptions = ["1e-9 on algebraic identities, 1e-7 on values recomputed from stored solver states"]
     return res
